@@ -30,12 +30,12 @@ pub fn run(tier: Tier, seed: u64) -> i32 {
     let d = Profile::default();
     let prof = Profile { w_raw_payload: 25, w_nontramp: 8, w_reject: 15, w_hash_mismatch: 5, max_parts: 6, max_payments: 2, raw_bytes: true, ..d.clone() };
     let p1 = prof.clone();
-    s.search("world-malformed-and-faults", "world", tier.pick(600, 6000), move || scenario_strategy(p1.clone()), &case);
+    s.search("world-malformed-and-faults", "world", tier.pick(600, 15000), move || scenario_strategy(p1.clone()), &case);
     let p2 = Profile { extreme_cfg: true, ..prof.clone() };
-    s.search("world-extreme-config", "world", tier.pick(200, 2000), move || scenario_strategy(p2.clone()), &case);
+    s.search("world-extreme-config", "world", tier.pick(200, 5000), move || scenario_strategy(p2.clone()), &case);
     if tier == Tier::Thorough {
         let p3 = Profile { read_faults: true, ..prof.clone() };
-        s.search("world-read-faults", "world", 4000, move || scenario_strategy(p3.clone()), &case);
+        s.search("world-read-faults", "world", 10000, move || scenario_strategy(p3.clone()), &case);
     }
     crate::e2e::c06_e2e(&mut s);
     if tier == Tier::Thorough {
